@@ -248,6 +248,7 @@ pub fn predict(snap: &Snap, meaning: &BTreeMap<String, Meaning>, inv: &Inv, answ
                 other => Pred::Unjudgeable(format!("library answer is {other:?}")),
             }
         }
+        Cmd::Edit { .. } => Pred::Unjudgeable("edit step".into()),
         Cmd::ConvAsca { words, rules, alias, output } => {
             let wp = get!(cx.input(words, &["wsca", "txt"], true));
             let rp = get!(cx.input(rules, &["rsca", "txt"], true));
@@ -583,6 +584,13 @@ pub fn run_history(root: &str, scn: &mut Scn, oracle: &mut Oracle, st: &mut Stat
     let mut meaning = scn.meaning.clone();
     for i in 0..scn.invs.len() {
         let inv = scn.invs[i].clone();
+        if let Cmd::Edit { path, text, meaning: m } = &inv.cmd {
+            let full = format!("{root}/{path}");
+            std::fs::write(&full, text).unwrap_or_else(|e| harness_error(&format!("edit {full}: {e}")));
+            meaning.insert(path.clone(), m.clone());
+            st.probe("file_edited_between_invocations");
+            continue;
+        }
         let before = cli::snapshot(root);
         let args = inv.cmd.argv();
         let stdin = cli::stdin_script(&inv.answers);
@@ -786,6 +794,7 @@ fn referenced(scn: &Scn) -> BTreeSet<String> {
                 add(alias);
                 add(output);
             }
+            Cmd::Edit { .. } => {}
             Cmd::ConvJson { path, words, rules, alias } => {
                 add(path);
                 add(words);
